@@ -223,16 +223,17 @@ func (b *backend) Pass(gs *pokerface.GameState) (*pokerface.GameState, error) {
 // driver
 
 type TableCfg struct {
-	Seats      int
-	Mode       string
-	Rule       string
-	MinPlayers int
-	ActionTime int
-	Blind      pt.TableBlindState
-	Interval   int // GameContinueInterval
-	Deck       string
-	Join       []pt.JoinPlayer // CreateTable join players
-	ID         string
+	Seats       int
+	Mode        string
+	Rule        string
+	MinPlayers  int
+	ActionTime  int
+	Blind       pt.TableBlindState
+	Interval    int // GameContinueInterval
+	Deck        string
+	Join        []pt.JoinPlayer // CreateTable join players
+	ID          string
+	MaxDuration int // seconds; 0 = beyond every horizon
 }
 
 type Snap struct {
@@ -327,11 +328,18 @@ func tableSetting(cfg TableCfg) pt.TableSetting {
 	}
 	return pt.TableSetting{
 		TableID: id,
-		Meta: pt.TableMeta{CompetitionID: "C1", Rule: cfg.Rule, Mode: cfg.Mode, MaxDuration: 1 << 28, TableMaxSeatCount: cfg.Seats,
+		Meta: pt.TableMeta{CompetitionID: "C1", Rule: cfg.Rule, Mode: cfg.Mode, MaxDuration: maxDur(cfg), TableMaxSeatCount: cfg.Seats,
 			TableMinPlayerCount: cfg.MinPlayers, MinChipUnit: 1, ActionTime: cfg.ActionTime},
 		Blind:       cfg.Blind,
 		JoinPlayers: cfg.Join,
 	}
+}
+
+func maxDur(cfg TableCfg) int {
+	if cfg.MaxDuration > 0 {
+		return cfg.MaxDuration
+	}
+	return 1 << 28
 }
 
 func newTD(env *vrt.Env, cfg TableCfg) (*TD, error) {
